@@ -458,6 +458,22 @@ def requests_for(c, obs, C):
     return reqs
 
 
+def well_formed(c, obs):
+    """every recorded array has the size the parameter shape dictates (otherwise the oracle reports the shapes and the
+    numerical comparison is skipped)"""
+    for st in [obs["init"]] + obs["steps"]:
+        if len(st["leaves"]) != len(c["leaves"]):
+            return False
+        for lf, so in zip(c["leaves"], st["leaves"]):
+            shape = lf["shape"]
+            n = prod(shape)
+            if [len(a) for a in so["accs"]] != shape or len(so["q"]) != n or len(so["bucket"]) != prod(shape[1:]):
+                return False
+            if "update" in so and (len(so["update"]) != n or len(so["param_used"]) != n):
+                return False
+    return len(obs["steps"]) == c["T"]
+
+
 def short(c):
     d = {k: v for k, v in c.items() if k != "leaves"}
     d["shapes"] = [lf["shape"] for lf in c["leaves"]]
@@ -587,7 +603,7 @@ def execute(ctx, cases, C):
         obs_all[k] = flat_sorted[pos]
     reqs, owner = [], []
     for ci, (c, obs) in enumerate(zip(cases, obs_all)):
-        if "exception" in obs:
+        if "exception" in obs or not well_formed(c, obs):
             continue
         for kind, k, t, r in requests_for(c, obs, C):
             reqs.append(r)
@@ -623,7 +639,13 @@ def execute(ctx, cases, C):
                 ctx.dist("cases_with_" + key)
         if info["strict_cover"] or info["rank1"]:
             ctx.nontrivial(hashlib.sha1(json.dumps(c, sort_keys=True).encode()).hexdigest()[:20])
-        compare(ctx, c, obs, per_case.get(ci, []), C)
+        if well_formed(c, obs):
+            compare(ctx, c, obs, per_case.get(ci, []), C)
+        else:
+            ctx.disagree("state.shapes", c, [[so["acc_shapes"], so["q_shape"], so.get("update_shape")] for so in (obs["steps"] or [obs["init"]])[-1]["leaves"]],
+                         [lf["shape"] for lf in c["leaves"]], f"case {c['id']}: state / update arrays do not have the sizes the parameter shapes dictate")
+            if not fails:
+                ctx.violation(f"state or update arrays have the wrong size for parameter shapes {[lf['shape'] for lf in c['leaves']]} [config {short(c)}]", c)
     return obs_all
 
 
